@@ -21,7 +21,14 @@ type htmlTemplate struct {
 	node          *Node
 	currentAttrs  map[*Node]int
 	nodeCondition map[*Node]bool
+	depth         int // insert/replace 的嵌套层数
 }
+
+// maxIncludeDepth insert/replace 允许的最大嵌套层数 超过则认为出现了循环引用
+const maxIncludeDepth = 128
+
+// ErrIncludeTooDeep 组件嵌套过深(很可能是组件直接或间接引用了自己)
+var ErrIncludeTooDeep = fmt.Errorf("template included too deeply")
 
 // NewTemplate 构造一个模板实例
 func NewTemplate(m *tplManager, name string, node *Node) *htmlTemplate {
@@ -243,6 +250,11 @@ func (t *htmlTemplate) processTagStart(node *Node, tokenBuf *strings.Builder,
 					return data, errors.Errorf(noSuchTemplate+":%w", name, ErrTplNotFound)
 				}
 				tpl := NewTemplate(t.manager, name, tplNode)
+				if tpl.depth = t.depth + 1; tpl.depth > maxIncludeDepth {
+					// 组件引用自己会无限递归直到栈溢出(进程崩溃 无法 recover) 这里提前返回错误
+					return data, errors.Errorf("failed to %v template `%v` at %v: nested more than %d levels: %w",
+						cmd, name, attr.ValueStart, maxIncludeDepth, ErrIncludeTooDeep)
+				}
 				if err := tpl.execute(tplNode, tagContentBuf, data, nil); err != nil {
 					return data, errors.Errorf("failed to %v template `%v` at %v: %w",
 						cmd, name, attr.ValueStart, err)
